@@ -7,7 +7,10 @@ package app
 import (
 	"encoding/hex"
 	"fmt"
+	"io"
+	"log/slog"
 	"math"
+	"net/http"
 	"sort"
 	"strconv"
 	"strings"
@@ -275,4 +278,18 @@ func VerifPackBase64(k [16]byte) string { return id16(k).PackBase64() }
 func VerifUnpackBase64(s string) (k [16]byte, err error) {
 	v, err := id16FromBase64(unpackBase64(s))
 	return [16]byte(v), err
+}
+
+// VerifCfgFromRequest runs cfgFromRequest on a GET of urlPath with ?nowMS: the error status, or the effective
+// instant (after timeoffset) and the start time.
+func VerifCfgFromRequest(urlPath string, nowMS int) string {
+	req, err := http.NewRequest("GET", urlPath+"?nowMS="+strconv.Itoa(nowMS), nil)
+	if err != nil {
+		return "bad-url"
+	}
+	now, cfg, errHT := cfgFromRequest(req, slog.New(slog.NewTextHandler(io.Discard, nil)))
+	if errHT != nil {
+		return strconv.Itoa(errHT.statusCode)
+	}
+	return fmt.Sprintf("ok now=%d start=%d idx=%d", now, cfg.StartTimeS, cfg.URLContentIdx)
 }
